@@ -188,6 +188,10 @@ pub use service_info::{
     AsIpAddrs, IntoTxtProperties, ResolvedService, ServiceInfo, TxtProperties, TxtProperty,
 };
 
+/// Verification facade and simulation seams (cargo feature `verif-hooks`).
+#[cfg(feature = "verif-hooks")]
+pub mod verif;
+
 /// A handler to receive messages from [ServiceDaemon]. Re-export from `flume` crate.
 pub use flume::Receiver;
 
@@ -195,6 +199,10 @@ use std::time::SystemTime;
 
 /// Returns the current time in milliseconds since the UNIX epoch.
 pub(crate) fn current_time_millis() -> u64 {
+    #[cfg(feature = "verif-hooks")]
+    if let Some(t) = verif::clock::get() {
+        return t;
+    }
     SystemTime::now()
         .duration_since(SystemTime::UNIX_EPOCH)
         .expect("failed to get current UNIX time")
